@@ -194,4 +194,14 @@ def classify(probs, text, res, by, root):
                         defaults.add((by[ident].get("rename") or ident) if ident in by else ident)
         if unused and unused <= defaults:
             return "inlined_generic_default"
+        # `as` on a variant printed as its bare name (a unit variant, or one whose lone field is skipped)
+        bare = set()
+        for d in reach(by, root):
+            for v in (d["variants"] if d["kind"] == "enum" else []):
+                lone_skipped = v["shape"] == "tuple" and len(v["fields"]) == 1 and v["fields"][0]["skip"]
+                if v.get("as_") is not None and (v["shape"] == "unit" or lone_skipped):
+                    for ident in named_in(v["as_"], set()):
+                        bare.add((by[ident].get("rename") or ident) if ident in by else ident)
+        if unused and unused <= bare:
+            return "as_on_bare_variant"
     return None
